@@ -101,6 +101,13 @@ pub fn run_op(line: &str) -> String {
                 format!("valid=simd:{} std:{}", a as u8, b as u8)
             }
         }
+        "proto" => crate::pktops::op_proto(&unhex(toks[1]).unwrap()),
+        "dec" if toks[1] == "v3" => crate::pktops::v3_dec(&unhex(toks[2]).unwrap()),
+        "deca" if toks[1] == "v3" => crate::pktops::v3_deca(&unhex(toks[2]).unwrap(), crate::pktops::parse_term(toks[3]).unwrap(), vec![]),
+        "hdr" if toks[1] == "v3" => crate::pktops::v3_hdr(&unhex(toks[2]).unwrap()),
+        "enc" if toks[1] == "v3" => crate::pktops::v3_enc(&toks[2..]),
+        "poll" if toks[1] == "v3" => crate::pktops::v3_poll(&unhex(toks[2]).unwrap(), crate::pktops::parse_sched(toks[3]).unwrap(), crate::pktops::parse_term(toks[4]).unwrap()),
+        "cwp" if toks[1] == "v3" => crate::pktops::v3_cwp(toks[2], &unhex(toks[3]).unwrap()),
         other => format!("bad-op {}", other),
     }
 }
